@@ -199,7 +199,7 @@ fn scenario_body(scenario: &str, n: usize) -> String {
                 for (i, f) in forms.iter().enumerate() {
                     let (cell, _) = marwood::parse::parse_text(f).map_err(|e| format!("{:?}", e))?;
                     vm.prepare_eval(&cell).map_err(|e| format!("{:?}", e).chars().take(80).collect::<String>())?;
-                    let budget = if i + 1 == forms.len() { 3 } else { 997 };
+                    let budget = if i + 1 == forms.len() { 101 } else { 997 };
                     let mut guard = 0u64;
                     loop {
                         match vm.run_count(budget) {
